@@ -142,10 +142,17 @@ func (ex *exampleValidator) validateExampleValueValidAgainstSchema() *Result {
 			}
 		}
 	}
-	if s.spec.Spec().Definitions != nil { // Safeguard
+	// NOTE: building a schema validator expands the $ref of the schema in place: values are checked
+	// against the definitions of the expanded copy of the spec (when there is one), so that the
+	// caller's document is left untouched.
+	definitions := s.spec.Spec().Definitions
+	if s.expanded != nil && s.expanded.Spec() != nil {
+		definitions = s.expanded.Spec().Definitions
+	}
+	if definitions != nil { // Safeguard
 		// reset explored schemas to get depth-first recursive-proof exploration
 		ex.resetVisited()
-		for nm, sch := range s.spec.Spec().Definitions {
+		for nm, sch := range definitions {
 			res.Merge(ex.validateExampleValueSchemaAgainstSchema("definitions."+nm, "body", &sch)) //#nosec
 		}
 	}
